@@ -100,6 +100,13 @@ def _f_new_flat(st, env):
     return RaggedArray(np.array(st["flat"], dtype=st["dtype"]), list(st["lengths"]))
 
 
+def _f_new_like(st, env):
+    """RaggedArray(flat, shape) with the shape taken from a live array: its .shape tuple or its lengths."""
+    src = env[st["src"]]
+    shape = src.shape if st.get("how") == "tuple" else src.lengths
+    return RaggedArray(np.array(st["flat"], dtype=st["dtype"]), shape)
+
+
 def _f_new_np(st, env):
     m = np.array(st["matrix"], dtype=st["dtype"]).reshape(st["shape"])
     return RaggedArray.from_numpy_array(m)
@@ -172,6 +179,10 @@ def _f_scan(st, env):
         return np.unique(v, axis=-1, return_counts=True)
     if f == "diff":
         return np.diff(v, n=st.get("n", 1))
+    if f == "flat_cumsum":
+        return v.cumsum()
+    if f == "flat_unique":
+        return np.unique(v)
     raise HarnessError(f"bad scan {f}")
 
 
@@ -272,7 +283,7 @@ def _f_read(st, env):
 
 
 OPS = {
-    "getitem": _f_getitem, "new_rows": _f_new_rows, "new_flat": _f_new_flat, "new_np": _f_new_np,
+    "getitem": _f_getitem, "new_like": _f_new_like, "new_rows": _f_new_rows, "new_flat": _f_new_flat, "new_np": _f_new_np,
     "ufunc1": _f_ufunc1, "ufunc2": _f_ufunc2, "pyop2": _f_pyop2, "pyop1": _f_pyop1,
     "reduce": _f_reduce, "colagg": _f_colagg, "scan": _f_scan, "concat": _f_concat, "like": _f_like,
     "where": _f_where, "nonzero": _f_nonzero, "rslice": _f_rslice, "padded": _f_padded,
